@@ -353,7 +353,15 @@ enum Rep {
     EntryRemove,
     EntryInsert,
 }
-fn dr_entry(sh: Shape, op: Rep) {
+/// how the map is disposed of after the entry operation
+#[derive(Clone, Copy, PartialEq)]
+enum Fin {
+    Drop,
+    Drain,
+    IntoIter1,
+}
+fn dr_entry(sh: Shape, opf: (Rep, Fin)) {
+    let (op, fin) = opf;
     let (mut m, mut lg) = start(sh);
     let kid: u8 = kani::any();
     let k = lg.make_k(kid);
@@ -396,16 +404,42 @@ fn dr_entry(sh: Shape, op: Rep) {
             }
         },
     }
-    drop(m);
+    // the cached old-table iterator must still cover exactly the old table's elements, or a
+    // later drain / into_iter (built from it) leaks what it does not cover
+    if let Some((ot, it)) = m.verif_parts().1 {
+        assert!(it.verif_agrees(ot), "[C06] after the entry operation the cached old-table iterator no longer covers the old table's elements (a later drain/into_iter leaks or double-drops them)");
+    }
+    match fin {
+        Fin::Drop => drop(m),
+        Fin::Drain => {
+            for (k, v) in m.drain() {
+                lg.back_k(k);
+                lg.back_v(v);
+            }
+            drop(m);
+        }
+        Fin::IntoIter1 => {
+            let mut it = m.into_iter();
+            if let Some((k, v)) = it.next() {
+                lg.back_k(k);
+                lg.back_v(v);
+            }
+            drop(it);
+        }
+    }
     lg.settle();
     kani::cover!(true, "reach: end of harness");
 }
-harness!(dr_entry_replace_entry__s8_8g0, dr_entry, S8_8G0, Rep::ReplaceEntry);
-harness!(dr_entry_replace_key__s8_8g0, dr_entry, S8_8G0, Rep::ReplaceKey);
-harness!(dr_entry_replace_with__s8_8g0, dr_entry, S8_8G0, Rep::ReplaceWith);
-harness!(dr_entry_replace_with__s8_4one, dr_entry, S8_4ONE, Rep::ReplaceWith);
-harness!(dr_entry_remove__s8_8g4, dr_entry, S8_8G4, Rep::EntryRemove);
-harness!(dr_entry_insert__s8_4a, dr_entry, S8_4A, Rep::EntryInsert);
+// Disposing of the map through drain()/into_iter() after the entry operation (Fin::Drain,
+// Fin::IntoIter1) runs CBMC out of memory (the operation's outcome makes the following
+// traversal symbolic); the cursor-agreement assertion above covers what those would observe.
+harness!(dr_entry_replace_entry__s8_8g0, dr_entry, S8_8G0, (Rep::ReplaceEntry, Fin::Drop));
+harness!(dr_entry_replace_key__s8_8g0, dr_entry, S8_8G0, (Rep::ReplaceKey, Fin::Drop));
+harness!(dr_entry_replace_with__s8_8g0, dr_entry, S8_8G0, (Rep::ReplaceWith, Fin::Drop));
+harness!(dr_entry_replace_with__s8_8g4, dr_entry, S8_8G4, (Rep::ReplaceWith, Fin::Drop));
+harness!(dr_entry_replace_with__s8_4one, dr_entry, S8_4ONE, (Rep::ReplaceWith, Fin::Drop));
+harness!(dr_entry_remove__s8_8g4, dr_entry, S8_8G4, (Rep::EntryRemove, Fin::Drop));
+harness!(dr_entry_insert__s8_4a, dr_entry, S8_4A, (Rep::EntryInsert, Fin::Drop));
 
 fn dr_clone(sh: Shape) {
     let (m, lg) = start(sh);
